@@ -225,17 +225,34 @@ def run(rep, facts):
             forms['long'] = (data[0] == 'call' and data[1] == "core::num::to_be_bytes" and st_ok)
         # O6: returned Ok(len(X)) with X the very array written, combined with the write's result
         ret = ir.peel(r.ret)
-        n6 += 1
         lens = [x for x in ir.walk(ret) if x[0] == 'call' and x[1].endswith("::len")]
         was = [x for x in ir.walk(ret) if x[0] == 'call' and x[1] == "std::io::Write::write_all"]
-        if not (ret[0] == 'call' and ret[1] == "std::result::Result::and" and lens and was and ir.peel(lens[0][2][0]) == ir.peel(was[0][2][1])):
-            o6 = False
+        if ret[0] == 'call' and ret[1] == "std::result::Result::and":
+            # write_all(w, X).and(Ok(X.len()))
+            n6 += 1
+            if not (lens and was and ir.peel(lens[0][2][0]) == ir.peel(was[0][2][1])):
+                o6 = False
+        elif ret[0] == 'agg' and ret[2].endswith("Result::Ok"):
+            # write_all(w, X)?; Ok(X.len())  — the Ok is reached only on the Continue edge of `?` on that very write
+            n6 += 1
+            cnt = ir.peel(ret[3][0][1])
+            same = cnt[0] == 'call' and cnt[1].endswith("::len") and ir.peel(cnt[2][0]) == data
+            guarded = False
+            for (e2, lab2) in nonconst_conds(r):
+                pe2 = ir.peel(e2)
+                if pe2[0] == 'discr' and any(x[0] == 'call' and x[1].endswith("Try>::branch") and any(
+                        y[0] == 'call' and y[1] == "std::io::Write::write_all" for y in ir.walk(x)) for x in ir.walk(pe2)):
+                    guarded = guarded or lab2 == ('case', 0)
+            if not (same and guarded):
+                o6 = False
+        else:
+            pass    # error propagation of the write itself: no count is reported
     if forms == {'short': True, 'long': True}:
         rep.ok("O4", "write/forms", "self < LONG_BIT => [self.0 as u8]; otherwise to_be_bytes(self.0) with LONG_BIT set in byte 0", b.loc())
     else:
         rep.violation("O4", "write/forms", "encoder forms are %s" % forms, b.loc())
     if o6 and n6 == 2:
-        rep.ok("O6", "write/count", "returns write_all(w, X).and(Ok(X.len())) with the same X on both paths", b.loc())
+        rep.ok("O6", "write/count", "Ok(X.len()) is returned only together with / after a successful write_all(w, X), same X, on both forms", b.loc())
     else:
         rep.violation("O6", "write/count", "the reported count is not the length of the array that was written", b.loc())
 
